@@ -539,7 +539,7 @@ func execRcv(o hx.Op) string {
 				s.mu.Lock()
 				s.ev = append([]string{e}, s.ev...)
 				s.mu.Unlock()
-			case <-time.After(5 * time.Second):
+			case <-time.After(60 * time.Second):
 				return "hang"
 			}
 			refillOn.Store(false)
@@ -908,6 +908,15 @@ func genSnd(g *hx.Gen) {
 	}
 	g.Stat(fmt.Sprintf("snd.writers=%d", nw))
 	g.Stat("snd.pol=" + pol[:5])
+	gsum := 0
+	for _, x := range grants {
+		gsum += x
+	}
+	if w0+gsum >= total { // every writer must finish (adjust_unblocks: each stall is followed by progress)
+		g.Stat("snd.window-sufficient-after-stalls")
+	} else { // the run must end stalled with every granted byte used
+		g.Stat("snd.window-insufficient-ends-stalled")
+	}
 	g.Emit("snd dir=%s w0=%d m=%d pol=%s grants=%s writers=%s", r.PickStr("out", "in"), w0, m, pol, hx.JoinInts(grants), strings.Join(ws, ","))
 }
 
